@@ -423,6 +423,9 @@ class World:
             **kw,
         )
 
+    def _F_in(self, mrec, op):
+        return (mrec.F if op.get("F_from") is None else self.minerals[op["F_from"]].F).copy()
+
     def dry_run(self, mrec, op):
         """Execute the update on a deep copy of the mineral (the never-faulted twin)
         to learn callback/step counts and the fault-free outcome."""
@@ -435,7 +438,7 @@ class World:
         _tls.solver_plan = None
         t0, t1 = self.tr.t_of_tau(op["t0"]), self.tr.t_of_tau(op["t1"])
         try:
-            F = self._call_update(twin, params, mrec.F.copy(), cb, t0, t1,
+            F = self._call_update(twin, params, self._F_in(mrec, op), cb, t0, t1,
                                   ri is not None, self.solver_kwargs())
             ok = True
             exc = None
@@ -511,7 +514,7 @@ class World:
         cb = Callbacks(flow, path, self.tr, rf, fault, baton, op["m"])
         n_before = (len(obj.orientations), len(obj.fractions))
         regime_before = obj.regime
-        F_in = mrec.F.copy()
+        F_in = self._F_in(mrec, op)
         gbs_rec = {"keep_all": bool(op.get("gbs_keep_all"))}
         _tls.gbs_rec = gbs_rec
         _tls.solver_plan = plan if (fault and fault["kind"] == "solver_failed") else None
@@ -742,7 +745,7 @@ class World:
                 _tls.solver_plan = None
                 t0, t1 = self.tr.t_of_tau(op["t0"]), self.tr.t_of_tau(op["t1"])
                 try:
-                    F = self._call_update(twin, params, mrec.F.copy(), cb, t0, t1, True,
+                    F = self._call_update(twin, params, self._F_in(mrec, op), cb, t0, t1, True,
                                           self.solver_kwargs())
                     ok, exc = True, None
                 except Exception as e:  # noqa: BLE001
